@@ -245,6 +245,60 @@ theorem roundtrip_magnitudes (p : PolarCoeffs ℝ) :
   · simp only [c2p, p2c, c2p_C32, p2c_C32a]; rw [p2c_C32b_eq]
     rw [show (-p.C32 * Real.cos (2 * p.phi32)) ^ 2 = (p.C32 * Real.cos (2 * p.phi32)) ^ 2 by ring, key']
 
+/-! ### Cartesian → polar → Cartesian -/
+
+lemma polar_re (a b : ℝ) : Real.sqrt (a ^ 2 + b ^ 2) * Real.cos (pyArctan2 b a) = a := by
+  unfold pyArctan2
+  have h := Complex.norm_mul_cos_arg (⟨a, b⟩ : ℂ)
+  rw [Complex.norm_eq_sqrt_sq_add_sq] at h
+  exact h
+
+lemma polar_im (a b : ℝ) : Real.sqrt (a ^ 2 + b ^ 2) * Real.sin (pyArctan2 b a) = b := by
+  unfold pyArctan2
+  have h := Complex.norm_mul_sin_arg (⟨a, b⟩ : ℂ)
+  rw [Complex.norm_eq_sqrt_sq_add_sq] at h
+  exact h
+
+/-- The other direction (not required by the property statement, which is polar → Cartesian → polar): Cartesian → polar → Cartesian
+reproduces every Cartesian coefficient exactly, so a Cartesian description loses nothing; the other direction: Cartesian → polar → Cartesian reproduces every Cartesian coefficient exactly -/
+theorem cartesian_roundtrip (c : CartesianCoeffs ℝ) : p2c (c2p c) = c := by
+  have e2 : ∀ t : ℝ, 2 * (-t / 2) = -t := fun t => by ring
+  have e3 : ∀ t : ℝ, 3 * (-t / 3) = -t := fun t => by ring
+  have e4 : ∀ t : ℝ, 4 * (t / 4) = t := fun t => by ring
+  have e4' : ∀ t : ℝ, -4 * (t / 4) = -t := fun t => by ring
+  have hc : p2c (c2p c) = ⟨(p2c (c2p c)).C10, (p2c (c2p c)).C12a, (p2c (c2p c)).C12b, (p2c (c2p c)).C21a, (p2c (c2p c)).C21b,
+      (p2c (c2p c)).C23a, (p2c (c2p c)).C23b, (p2c (c2p c)).C30, (p2c (c2p c)).C32a, (p2c (c2p c)).C32b, (p2c (c2p c)).C34a,
+      (p2c (c2p c)).C34b⟩ := rfl
+  rw [hc]
+  obtain ⟨c10, a12, b12, a21, b21, a23, b23, c30, a32, b32, a34, b34⟩ := c
+  congr 1
+  · simp only [p2c, c2p, p2c_C12a, c2p_C12, c2p_phi12]
+    rw [e2, Real.cos_neg, neg_neg, polar_re]
+  · simp only [p2c, c2p, p2c_C12b, c2p_C12, c2p_phi12]
+    rw [e2, Real.sin_neg, neg_mul_neg, polar_im]
+  · simp only [p2c, c2p, p2c_C21a, c2p_C21, c2p_phi21]
+    rw [add_comm, polar_im]
+  · simp only [p2c, c2p, p2c_C21b, c2p_C21, c2p_phi21]
+    rw [add_comm, polar_re]
+  · simp only [p2c, c2p, p2c_C23a, c2p_C23, c2p_phi23]
+    rw [e3, Real.sin_neg, neg_mul_neg, add_comm, polar_im]
+  · simp only [p2c, c2p, p2c_C23b, c2p_C23, c2p_phi23]
+    rw [e3, Real.cos_neg, add_comm, polar_re]
+  · simp only [p2c, c2p, p2c_C32a, c2p_C32, c2p_phi32]
+    rw [e2, Real.cos_neg, neg_neg, polar_re]
+  · simp only [p2c]
+    rw [p2c_C32b_eq]
+    simp only [c2p, c2p_C32, c2p_phi32]
+    rw [e2, Real.sin_neg, neg_mul_neg, polar_im]
+  · simp only [p2c]
+    rw [p2c_C34a_eq]
+    simp only [c2p, c2p_C34, c2p_phi34]
+    rw [e4, polar_re]
+  · simp only [p2c]
+    rw [p2c_C34b_eq]
+    simp only [c2p, c2p_C34, c2p_phi34]
+    rw [e4, polar_im]
+
 /-! ### non-vacuity -/
 example : supported (PolarCoeffs.const (0 : ℝ)) = PolarCoeffs.const 0 := rfl
 
